@@ -20,7 +20,7 @@ ASSUMPTIONS = {
     'A6': 'A6 cbor-smol ser.rs emits shortest-form heads and each serde call appends exactly its item (checked for scalars by Kani harnesses; otherwise assumed)',
     'A7': 'A7 cosey 0.3 emits COSE key members in the order 1, 3, -1, -2, -3 (assumed)',
     'A8': 'A8 cbor-smol de.rs + serde-generated visitors: no panic, terminate, error taxonomy (SerdeMissingField for a missing required member, other variants for malformed input) (assumed; cbor_deserialize is an uninterpreted function in the Verus units)',
-    'A9': 'A9 cbor-smol ignore() consumes exactly one well-formed item (assumed)',
+    'A9': 'A9 cbor-smol ignore() consumes exactly one well-formed definite-length item of any shape and nesting, terminates, never panics — PROVED by Verus on the pinned dependency source (unit c06_cbor_skipper); the one method left external (raw_deserialize_u32, the length-head reader) is validated by the Kani harness dep_k_length_heads',
     'A10': 'A10 parametricity: a generic default method can interact with Self only through the trait methods',
     'A11': 'A11 str / slice equality implies equal length (core)',
     'A12': 'A12 a UTF-8 scalar value is at most 4 bytes',
@@ -463,3 +463,16 @@ PROPS['C17']['kani'] = PROPS['C17']['kani'] + DEP_CONTAINERS + DEP_CBOR
 PROPS['C12']['kani'] = PROPS['C12']['kani'] + DEP_DECODE_CAP
 
 PROPS['C18']['decl'] = True
+
+DEP_LENHEAD = [
+    H(ROOT + 'dep::dep_k_length_heads', ['cbor_smol::de::Deserializer::raw_deserialize_u32 (dependency; contract `len_head` of unit c06_cbor_skipper, validated through the public decoder)'],
+      kind='gc', bound='all 5-byte inputs as u32 (complete for major type 0); byte strings up to 44 bytes'),
+]
+PROPS['C06']['verus'] = ['c06_cbor_skipper']
+PROPS['C06']['kani'] = PROPS['C06']['kani'] + DEP_LENHEAD
+PROPS['C06']['explanation'] = ('Unbounded proof in two halves: (1) Engine D/X: for the seven extensible host maps the generated decoders route every key '
+    'outside the exact specification key set to `deserialize_ignored_any` (no deny_unknown_fields, plain derived Deserialize, `__ignore` arm '
+    'present in the macro expansion); (2) Verus proves on the pinned cbor-smol source that the skipper `ignore()` consumes exactly one '
+    'well-formed definite-length data item of any shape and nesting depth (spec function `rest`, RFC 8949 grammar), terminates and cannot '
+    'panic, and that appending the remaining members after the unknown value leaves exactly them (lemma ob_C06_unknown_value_is_skipped_exactly).')
+PROPS['C04']['verus'] = PROPS['C04']['verus'] + ['c06_cbor_skipper']
